@@ -1,17 +1,5 @@
 (* Soundness of the tree helpers (Tree.v) against the MiniJS semantics *)
-From V Require Import Common.Base C03.Num C03.Tree C03.MiniJS.
-
-(* flags set by the parser that the helpers trust: "typeof x" marked as
-   originally-an-identifier really has an identifier operand *)
-Fixpoint wf_flags (e : expr) : Prop :=
-  match e with
-  | EUn op v w => (op = UTypeof -> w = true -> exists r c m, v = EId r c m) /\ wf_flags v
-  | EBin _ l r => wf_flags l /\ wf_flags r
-  | EIf t y n => wf_flags t /\ wf_flags y /\ wf_flags n
-  | EAnnot v _ => wf_flags v
-  | EInlinedEnum v => wf_flags v
-  | _ => True
-  end.
+From V Require Import Common.Base C03.Num C03.Tree C03.MiniJS C03.Worlds.
 
 Ltac inv H := inversion H; subst; clear H.
 
@@ -48,14 +36,9 @@ Proof.
 Qed.
 
 Section Proofs.
-  Variable unbound : Z -> bool.
-  Variable lenv : Z -> value.
-  Variable genv : Z -> option value.
-  Variable oracle : Z -> nat -> outcome.
-  Variable un_sem : unop -> value -> nat -> trace * outcome.
-  Variable bin_sem : binop -> value -> value -> nat -> trace * outcome.
+  Variable W : world.
 
-  Notation ev := (eval unbound lenv genv oracle un_sem bin_sem).
+  Notation ev := (eval W).
 
   Lemma bind_inv : forall r k tr' out,
     bind r k = Some (tr', out) ->
@@ -68,6 +51,29 @@ Section Proofs.
     - right. inv H. eauto.
   Qed.
 
+  Lemma lbind_inv : forall r k tr' out,
+    lbind r k = Some (tr', out) ->
+    (exists tr1 vs, r = Some (tr1, LVals vs) /\ k tr1 vs = Some (tr', out)) \/
+    (exists x, r = Some (tr', LThrow x) /\ out = Throw x).
+  Proof.
+    intros r k tr' out H. unfold lbind in H.
+    destruct r as [[tr1 [vs|x]]|]; try discriminate.
+    - left. eauto.
+    - right. inv H. eauto.
+  Qed.
+
+  Lemma eff_inv : forall tr f tr' out, eff tr f = Some (tr', out) -> exists t2, f (length tr) = (t2, out) /\ tr' = tr ++ t2.
+  Proof. intros tr f tr' out H. unfold eff in H. destruct (f (length tr)) as [t2 o]. inv H. eauto. Qed.
+
+  Lemma props_value : forall (evf : trace -> expr -> option (trace * outcome)) l tr tr' v,
+    eval_props_with W evf tr l = Some (tr', Val v) -> v = VObjLit.
+  Proof.
+    induction l as [|[[[kind computed] key] value] r IH]; intros tr tr' v H; cbn [eval_props_with] in H.
+    - inv H. reflexivity.
+    - destruct (kind =? 1); [|destruct computed];
+        repeat (apply bind_inv in H as [(? & ? & ? & H)|(? & ? & ?)]; [|discriminate]); eauto.
+  Qed.
+
   Lemma typeof_nonempty : forall v, truthy (VStr (typeof_value v)) = true.
   Proof. destruct v; reflexivity. Qed.
 
@@ -75,7 +81,7 @@ Section Proofs.
      the expression has that truthiness; when it says NoSideEffects, the
      expression completes normally and leaves the trace unchanged *)
   Theorem to_boolean_sound_all : forall e tr tr' out b se,
-    wf_flags e ->
+    flags_ok W e ->
     ev tr e = Some (tr', out) -> to_boolean e = (b, se, true) ->
     (forall v, out = Val v -> truthy v = b) /\ (se = true -> tr' = tr /\ exists v, out = Val v).
   Proof.
@@ -113,12 +119,12 @@ Section Proofs.
         inv Hb. cbn [eval] in Hev.
         destruct se.
         * destruct (Hty eq_refl eq_refl) as (r & c & m & ->).
-          destruct (unbound r); [destruct (genv r)|]; inv Hev;
+          destruct (w_unbound W r); [destruct (w_genv W r)|]; inv Hev;
             (split; [intros v0 E0; inv E0; try apply typeof_nonempty; reflexivity | eauto]).
         * split; [|discriminate].
           intros v0 E0. subst out.
           destruct e; try (apply bind_inv in Hev as [(tr1 & x & Hx & Hk)|(x & Hx & Ho)]; [inv Hk; apply typeof_nonempty | discriminate]).
-          destruct (unbound ref); [destruct (genv ref)|]; inv Hev; try apply typeof_nonempty; reflexivity.
+          destruct (w_unbound W ref); [destruct (w_genv W ref)|]; inv Hev; try apply typeof_nonempty; reflexivity.
     - (* EBin *)
       destruct Hwf as [Hwl Hwr].
       destruct op; try discriminate.
@@ -151,20 +157,19 @@ Section Proofs.
         destruct (IHe2 _ _ _ _ _ Hwr Hk eq_refl) as [H1 _]. apply H1. reflexivity.
     - (* EArray *)
       inv Hb. split; [|discriminate]. intros v0 E0. subst out.
-      destruct items; cbn in Hev; [inv Hev; reflexivity | discriminate].
+      rewrite eval_array_eq in Hev.
+      apply lbind_inv in Hev as [(tr1 & vs & _ & Hk)|(x & _ & Ho)]; [inv Hk; reflexivity | discriminate].
     - (* EObject *)
       inv Hb. split; [|discriminate]. intros v0 E0. subst out.
-      destruct props as [|[[[k c] key] val] props]; cbn [eval] in Hev; [inv Hev; reflexivity|].
-      destruct k; try discriminate. destruct c; try discriminate. destruct props; try discriminate.
-      apply bind_inv in Hev as [(tr1 & x & Hx & Hk)|(x & Hx & Ho)]; [|discriminate].
-      destruct x; try discriminate;
-        (apply bind_inv in Hk as [(tr2 & y & Hy & Hk2)|(y & Hy & Ho)]; [inv Hk2; reflexivity | discriminate]).
+      rewrite eval_object_eq in Hev. apply props_value in Hev. subst v0. reflexivity.
     - (* EAnnot *)
       destruct (to_boolean e) as [[b' se'] ok'] eqn:Hte. inv Hb.
-      cbn [eval] in Hev. destruct removable; [discriminate|].
-      cbn [wf_flags] in Hwf. exact (IHe _ _ _ _ _ Hwf Hev eq_refl).
+      cbn [eval] in Hev. cbn [flags_ok] in Hwf. destruct Hwf as [Hpure Hwf].
+      destruct (IHe _ _ _ _ _ Hwf Hev eq_refl) as [H1 H2]. split; [exact H1|].
+      intros Hs. destruct removable; [|exact (H2 Hs)].
+      destruct (Hpure eq_refl tr) as [v Hv]. rewrite Hv in Hev. inv Hev. eauto.
     - (* EInlinedEnum *)
-      cbn [eval] in Hev. cbn [wf_flags] in Hwf. exact (IHe _ _ _ _ _ Hwf Hev Hb).
+      cbn [eval] in Hev. cbn [flags_ok] in Hwf. exact (IHe _ _ _ _ _ Hwf Hev Hb).
   Qed.
 End Proofs.
 
